@@ -45,7 +45,9 @@ impl<K: ExpiredKey<E>, E: Expiration, V: Copy> KeyExpTree<K, E, V> {
     fn create_ordered_list(&mut self, time: E) -> Vec<V> {
         let height = self.height();
         let mut stack = Vec::with_capacity(height);
-        let mut list = Vec::with_capacity(8 << height);
+        // every slot is the sentinel, on the free list, or holds one entry
+        let count = self.store.buffer.len().saturating_sub(self.store.unused.len() + 1);
+        let mut list = Vec::with_capacity(count);
 
         if self.root == EMPTY_REF {
             return list;
